@@ -4,3 +4,4 @@ import Thanos.Props.C45
 import Thanos.Props.C49
 import Thanos.Props.C46
 import Thanos.Props.C47
+import Thanos.Props.C48
